@@ -18,7 +18,7 @@ ASSUMPTIONS = [
     "back-off: integer factory parameters as in the signature; max_exponent capped at 20000 for cost",
 ]
 EVAL_COUNTER = "evaluations"
-REQUIRED = ["backoff_evals", "next_evals", "overdue_evals", "delay_until_ahead", "now_before_base", "now_on_grid", "with_scheduled_time", "stored_bucket_probes", "timezone_offset_cases"]
+REQUIRED = ["backoff_evals", "next_evals", "overdue_evals", "delay_until_ahead", "now_before_base", "now_on_grid", "with_scheduled_time", "stored_bucket_probes", "timezone_offset_cases", "wire_conversions"]
 
 US = timedelta(microseconds=1)
 
@@ -34,6 +34,9 @@ def gen_cases(tier, seed):
     for i in range(3 if tier == "quick" else 12):
         cases.append({"kind": "bucket_store", "seed": seed * 1000 + 300 + i})
     cases.append({"kind": "next_grid"})
+    # what the brokers make of a scheduled time: the relative expiration RabbitMQ is given, the score Redis stores
+    for i in range(2 if tier == "quick" else 12):
+        cases.append({"kind": "wire", "n": 400 if tier == "quick" else 3000, "seed": seed * 1000 + 600 + i})
     # the same arithmetic where local time is not UTC (every datetime involved is a naive local one)
     for i, tz in enumerate(("JST-9", "EST5", "IST-5:30", "CHAST-12:45")):
         cases.append({"kind": "next", "n": n // 2, "seed": seed * 1000 + 400 + i, "tz": tz})
@@ -166,6 +169,70 @@ def check_next(ts, now, p, du, out, stats, fps, sched=None):
     if ongrid:
         stats["now_on_grid"] += 1
     fps.add(f"next/{rel}/{'grid' if ongrid else 'off'}/{'us' if p.microseconds else 's'}/{len(str(int(p.total_seconds())))}/{'du' if du else '-'}")
+
+
+def check_wire(rnd, n, out, stats, fps):
+    """A scheduled time T handed to the brokers' own conversion code under a pinned clock: RabbitMQ gets the whole remaining
+    time as its relative expiration (milliseconds, never more than the remaining time, at most 1 ms less), Redis a score that
+    is the first whole second not before T."""
+    import asyncio
+    import math
+
+    from repid.connections.rabbitmq.message_broker import RabbitMessageBroker
+    from repid.connections.redis import utils as rutils
+    from repid.data._key import RoutingKey
+    from repid.data._parameters import DelayProperties, Parameters
+    from rv.sim.clock import pin
+
+    class Chan:
+        is_closed = False
+
+        def __init__(self):
+            self.published = []
+
+        async def basic_publish(self, body, *, routing_key, properties, **kw):
+            from aiormq.abc import Basic as _B  # noqa: F401
+            import pamqp.commands as _c
+
+            self.published.append((routing_key, properties))
+            return _c.Basic.Ack()
+
+    async def publish(broker, key, params):
+        await broker.enqueue(key, "p", params)
+
+    for _ in range(n):
+        now = _rand_dt(rnd, 2000, 2100)
+        off = rnd.choice([timedelta(microseconds=rnd.randint(1, 999)), timedelta(seconds=rnd.uniform(0.001, 5)), timedelta(seconds=rnd.randint(1, 86400), microseconds=rnd.randint(0, 999999)),
+                          timedelta(days=rnd.randint(1, 45), seconds=rnd.randint(0, 86399), microseconds=rnd.randint(0, 999999)), timedelta(days=1), timedelta(days=7), -timedelta(seconds=rnd.randint(0, 100))])
+        T = now + off
+        params = Parameters(timestamp=now, delay=DelayProperties(next_execution_time=T))
+        pin(now)
+        stats["evaluations"] += 1
+        stats["wire_conversions"] += 1
+        # RabbitMQ
+        broker = RabbitMessageBroker("amqp://unused")
+        ch = Chan()
+        broker._RabbitMessageBroker__channel = ch
+        try:
+            asyncio.run(publish(broker, RoutingKey(topic="t", queue="q", id_="m"), params))
+        except Exception as exc:  # noqa: BLE001
+            out.append(_viol("next_raises", "rabbit-expiration", f"now={now} T={T}: enqueue raised {exc!r}"))
+            continue
+        rk, props = ch.published[-1]
+        remaining_ms = (T - now) / timedelta(milliseconds=1)
+        if remaining_ms <= 0 or int(remaining_ms) == 0:
+            if rk != "q" and not (props.expiration in (None, "0")):
+                out.append(_viol("next_not_on_grid", "rabbit-expiration", f"now={now} T={T} (not ahead by a whole millisecond): published to {rk} with expiration {props.expiration}"))
+        else:
+            exp = int(props.expiration) if props.expiration is not None else None
+            if rk != "q:delayed" or exp is None or not (remaining_ms - 1 < exp <= remaining_ms):
+                out.append(_viol("next_not_on_grid", "rabbit-expiration", f"now={now} T={T}: {remaining_ms:.3f} ms remain, published to {rk} with expiration {props.expiration}"))
+        # Redis
+        score = rutils.wait_timestamp(params)
+        want = math.ceil(T.timestamp()) if True else None
+        if score is None or score != want:
+            out.append(_viol("next_not_on_grid", "redis-score", f"T={T}: score {score}, expected the first whole second not before T = {want}"))
+        fps.add(f"wire/{'past' if off < timedelta(0) else 'sub-ms' if off < timedelta(milliseconds=1) else 'sub-day' if off < timedelta(days=1) else 'days'}")
 
 
 def check_overdue(ts, ttl, now, out, stats, fps):
@@ -362,6 +429,8 @@ def run_case(case):
                         continue  # int64 nanoseconds of the clock shim end in 2262
                     for du in (None, now, now + US, now - US, ts):
                         check_next(ts, now, p, du, out, stats, fps)
+    elif kind == "wire":
+        check_wire(random.Random(case["seed"]), case["n"], out, stats, fps)
     elif kind == "overdue":
         rnd = random.Random(case["seed"])
         for _ in range(case["n"]):
